@@ -20,9 +20,11 @@ import (
 	"github.com/slackhq/nebula/cert"
 	"github.com/slackhq/nebula/config"
 	"github.com/slackhq/nebula/firewall"
+	"github.com/slackhq/nebula/handshake"
 	"github.com/slackhq/nebula/header"
 	"github.com/slackhq/nebula/iputil"
 	"github.com/slackhq/nebula/noiseutil"
+	"github.com/slackhq/nebula/sshd"
 	"github.com/slackhq/nebula/util"
 )
 
@@ -36,6 +38,8 @@ var (
 	_ = iputil.SpecIsExt
 	_ = noiseutil.RejectAfterMessages
 	_ *header.H
+	_ *handshake.Result
+	_ sshd.StringWriter
 	_ *util.ContextualError
 )
 
@@ -906,8 +910,9 @@ func specNeedsRehandshake(cm *connectionManager, h *HostInfo) bool {
 //@   trusted handshake packets are authenticated by the handshake itself (C05, C10), not by a tunnel key
 //@   effect handshakes
 //@ func (*HandshakeManager).DeleteHostInfo
-//@   trusted removes a pending handshake
+//@   trusted removes a pending handshake (the pending-handshake maps it changes are not read by any contract)
 //@   effect acted
+//@   assigns nothing
 //@ func (*Interface).maybeSendRecvError
 //@   trusted may send a rate-limited recv_error packet; no local tunnel state is touched
 //@   assigns nothing
@@ -1216,6 +1221,7 @@ func specNetFound(t *bart.Table[NetworkType], ip netip.Addr) bool { return false
 //@   requires i != nil && c != nil && myVpnNetworksTable != nil
 //@   callrequires (*Table).Insert arg0 == i.networks && ((arg2 == NetworkTypeUnsafe) || (arg1.Bits() == arg1.Addr().BitLen() && arg2 == ite(liteContains(myVpnNetworksTable, arg1.Addr()), NetworkTypeVPN, NetworkTypeVPNPeer)))
 //@   old n0 = i.networks
+//@   assigns i.networks
 //@   ensures[simple] implies(i.networks == n0, len(c.Networks()) == 1 && len(c.UnsafeNetworks()) == 0 && liteContains(myVpnNetworksTable, c.Networks()[0].Addr()))
 //@   loop 1 invariant i.networks != nil && fresh(i.networks)
 //@   loop 2 invariant i.networks != nil && fresh(i.networks)
@@ -1391,6 +1397,73 @@ func specTable(ft *FirewallTable, p firewall.Packet, incoming bool, c *cert.Cach
 //@   loop 1 invariant[frame]   len(vpnAddrs) == len(vpnNetworks) && fresh(&vpnAddrs[0]) && allowed == 0
 //@   loop 1 assigns elems(vpnAddrs)
 
+// Initiator side (continueHandshake): the pending tunnel is moved to the main
+// hostmap (one call of Complete at most, counted by `completed`) only with
+//   - the connection state built from this handshake's result, whose peer
+//     certificate is the one the handshake machine verified (C05);
+//   - as recorded peer addresses exactly the addresses of that certificate's
+//     networks, in order;
+//   - none of them one of the node's own addresses;
+//   - the address the handshake was started for among them (an initiator never
+//     installs a tunnel when a different host answers).
+//@ func github.com/slackhq/nebula/handshake.(*Machine).ProcessPacket
+//@   trusted the handshake state machine (verified in package handshake, C05/C07); the caller's view: nothing the caller holds is changed, and a peer certificate in the result is a parsed certificate (cert.CachedCertificate always wraps one)
+//@   ensures implies(result1 != nil && result1.RemoteCert != nil, result1.RemoteCert.Certificate != nil)
+//@   assigns nothing
+//@ func github.com/slackhq/nebula/handshake.(*Machine).Failed
+//@   trusted accessor
+//@   assigns nothing
+//@ func github.com/slackhq/nebula/handshake.(*Machine).MessageIndex
+//@   trusted accessor
+//@   assigns nothing
+//@ func github.com/slackhq/nebula/handshake.(*Machine).Subtype
+//@   trusted accessor
+//@   assigns nothing
+//@ func github.com/slackhq/nebula/header.SubTypeName
+//@   trusted name of a message subtype for logging
+//@   assigns nothing
+//@ func newConnectionStateFromResult
+//@   trusted builds the tunnel's connection state from the handshake result: keys, replay window, and the peer certificate of the result
+//@   ensures implies(result1 == nil, result0 != nil && fresh(result0) && result0.peerCert == r.RemoteCert)
+//@   assigns nothing
+//@ func (*HandshakeManager).sendHandshakeResponse
+//@   trusted sends a handshake message to the peer (directly or through the relay)
+//@   assigns nothing
+//@ func (*RelayState).InsertRelayTo
+//@   trusted remembers the relay this peer was reached through
+//@   assigns nothing
+//@ func (*HandshakeManager).Complete
+//@   trusted moves the pending tunnel into the main hostmap (unlockedAddHostInfo, C10/C29) under both locks
+//@   effect completed
+//@   assigns nothing
+//@ func (*RemoteList).RefreshFromHandshake
+//@   trusted tells the remote list which overlay addresses the peer owns
+//@   assigns nothing
+//@ func (*LightHouse).TriggerUpdate
+//@   trusted non-blocking wake-up of the lighthouse update worker
+//@   assigns nothing
+
+//@ func (*HandshakeManager).continueHandshake
+//@   props C09
+//@   ghost j int
+//@   ghost completed int = 0
+//@   requires hm != nil && hm.f != nil && hm.f.l != nil && hm.f.lightHouse != nil && hm.f.myVpnAddrsTable != nil && hm.f.myVpnNetworksTable != nil && hm.f.cachedPacketMetrics != nil && hm.f.cachedPacketMetrics.sent != nil && hm.f.metricHandshakes != nil
+//@   requires hh != nil && hh.hostinfo != nil && len(hh.hostinfo.vpnAddrs) >= 1 && hh.hostinfo.remotes != nil
+//@   requires implies(via.IsRelayed, via.relayHI != nil && len(via.relayHI.vpnAddrs) >= 1)
+//@   requires[stored] forall(func(k int) bool { return implies(0 <= k && k < len(hh.packetStore), hh.packetStore[k] != nil && hh.packetStore[k].callback != nil) })
+//@   old intended = hh.hostinfo.vpnAddrs[0]
+//@   old hi = hh.hostinfo
+//@   callrequires (*HandshakeManager).Complete arg1 == hi && arg1.ConnectionState != nil && arg1.ConnectionState.peerCert != nil && len(arg1.vpnAddrs) == len(arg1.ConnectionState.peerCert.Certificate.Networks()) && implies(0 <= j && j < len(arg1.vpnAddrs), arg1.vpnAddrs[j] == arg1.ConnectionState.peerCert.Certificate.Networks()[j].Addr() && !liteContains(hm.f.myVpnAddrsTable, arg1.vpnAddrs[j])) && exists(func(m int) bool { return 0 <= m && m < len(arg1.vpnAddrs) && arg1.vpnAddrs[m] == intended })
+//@   callback callback(t, st, h, p, nb, out) requires h == hi
+//@   callback callback(t, st, h, p, nb, out) pure
+//@   ensures[once] completed <= 1
+//@   loop 1 invariant[exact]   implies(0 <= j && j < i, vpnAddrs[j] == vpnNetworks[j].Addr() && !liteContains(hm.f.myVpnAddrsTable, vpnAddrs[j]))
+//@   loop 1 invariant[correct] implies(correctHostResponded, exists(func(m int) bool { return 0 <= m && m < i && vpnAddrs[m] == intended }))
+//@   loop 1 invariant[frame]   len(vpnAddrs) == len(vpnNetworks) && implies(len(vpnAddrs) > 0, fresh(&vpnAddrs[0])) && completed == 0 && hostinfo == hi && hostinfo.vpnAddrs[0] == intended && len(hostinfo.vpnAddrs) >= 1 && hostinfo.ConnectionState != nil && hostinfo.ConnectionState.peerCert == remoteCert && remoteCert != nil && same(vpnNetworks, remoteCert.Certificate.Networks()) && f == hm.f
+//@   loop 1 assigns elems(vpnAddrs)
+//@   loop 2 invariant completed == 1
+//@   loop 2 assigns nothing
+
 // =====================================================================
 // C10 — replayed handshakes do not create or replace tunnels
 // =====================================================================
@@ -1475,6 +1548,37 @@ func specHostAt(hm *HostMap, a netip.Addr, m int) *HostInfo {
 // (the arriving peer's addresses, that entry's peer address), and only if
 // that onward entry is established and of forwarding type; a terminal entry
 // is unwrapped locally (re-entering readOutsidePackets) and never forwarded.
+
+// Relay indexes disappear with the tunnel that owns them: after a tunnel is
+// removed from the hostmap (whether or not another tunnel to the same peer
+// remains), none of the relay indexes it was forwarding under is left in the
+// hostmap's relay index table, and its own index is gone (pointwise in an
+// arbitrary index k).
+//@ func removeHostInfo
+//@   trusted removes the first occurrence of hi from the list (slices.Index / slices.Delete)
+//@   assigns elems(list)
+//@ func (*HostMap).unlockedSetHostsForAddr
+//@   trusted installs the list as the tunnels of this address (primary first) or removes the address
+//@   assigns mapof(hm.Hosts), mapof(hm.moreHosts)
+//@ func (*HostMap).unlockedDisestablishVpnAddrRelayFor
+//@   trusted marks the relay entries that other tunnels hold for this peer as disestablished (state of existing entries only: no index is added or removed)
+//@   assigns nothing
+//@ func (*RelayState).CopyRelayForIdxs
+//@   trusted a fresh slice holding every key of the tunnel's relay-index table (a map range under the read lock)
+//@   ghost k uint32
+//@   ensures implies(has(rs.relayForByIdx, k), exists(func(j int) bool { return 0 <= j && j < len(result) && result[j] == k }))
+//@   assigns nothing
+
+//@ func (*HostMap).unlockedDeleteHostInfo
+//@   props C39
+//@   ghost k uint32
+//@   requires hm != nil && hostinfo != nil && hm.l != nil
+//@   requires[distinct] !same(hm.Relays, hm.Indexes) && !same(hm.Relays, hm.RemoteIndexes) && !same(hm.Indexes, hm.RemoteIndexes)
+//@   ensures[relays] implies(old(has(hostinfo.relayState.relayForByIdx, k)), !has(hm.Relays, k))
+//@   ensures[index]  !has(hm.Indexes, old(hostinfo.localIndexId))
+//@   loop 1 invariant same(hm.Indexes, old(hm.Indexes)) && same(hm.Relays, old(hm.Relays)) && same(hm.RemoteIndexes, old(hm.RemoteIndexes)) && same(hostinfo.relayState.relayForByIdx, old(hostinfo.relayState.relayForByIdx)) && hostinfo.localIndexId == old(hostinfo.localIndexId) && hostinfo.remoteIndexId == old(hostinfo.remoteIndexId) && hm.l == old(hm.l)
+//@   loop 2 invariant forall(func(j int) bool { return implies(0 <= j && j < rangeindex, !has(hm.Relays, rangeslice[j])) })
+//@   loop 2 assigns mapof(hm.Relays)
 
 //@ func specRelayVia
 //@   opaque
@@ -2193,3 +2297,109 @@ func verifLemmaWheelStep(k, cur, n, i int) {}
 //@   ensures[hi]     result.Hi == (specAddrHi(c.mask.Addr())&specTop64(c.mask.Bits()))|(specAddrHi(addr)&^specTop64(c.mask.Bits()))
 //@   ensures[lo]     result.Lo == (specAddrLo(c.mask.Addr())&specTop64(c.mask.Bits()-64))|(specAddrLo(addr)&^specTop64(c.mask.Bits()-64))
 //@   assigns nothing
+
+// =====================================================================
+// C45 — SSH debug file paths stay inside the sandbox
+// =====================================================================
+//
+// The lexical path functions of the standard library are deterministic
+// functions of their arguments (uninterpreted here). With a sandbox directory
+// configured, sshSanitizeFilePath accepts a path exactly when the cleaned form
+// of (the path itself if absolute, else the path joined onto the sandbox) is
+// starts with the cleaned sandbox followed by the path separator — i.e. lies
+// strictly inside it (a prefix is never longer than the string, so the sandbox
+// directory itself is excluded) — and then returns exactly that
+// cleaned form; every other path is refused with an empty result. Without a
+// sandbox the path is returned unchanged.
+
+//@ func specClean
+//@   opaque
+func specClean(p string) string { return p }
+
+//@ func specIsAbs
+//@   opaque
+func specIsAbs(p string) bool { return false }
+
+//@ func specJoin2
+//@   opaque
+func specJoin2(a, b string) string { return a }
+
+//@ func specHasPrefix
+//@   opaque
+func specHasPrefix(s, prefix string) bool { return false }
+
+//@ func path/filepath.Clean
+//@   trusted lexical path cleaning, a pure function of the path
+//@   ensures result == specClean(path)
+//@   assigns nothing
+//@ func path/filepath.IsAbs
+//@   trusted a pure function of the path
+//@   ensures result == specIsAbs(path)
+//@   assigns nothing
+//@ func path/filepath.Join
+//@   trusted joins and cleans path elements, a pure function of the elements
+//@   ensures implies(len(elem) == 2, result == specJoin2(elem[0], elem[1]))
+//@   assigns nothing
+//@ func strings.HasPrefix
+//@   trusted a pure function of string and prefix
+//@   ensures result == specHasPrefix(s, prefix) && implies(result, len(s) >= len(prefix))
+//@   assigns nothing
+
+//@ func specInsideSandbox
+//@   pure
+func specInsideSandbox(sandboxDir, cleaned string) bool {
+	return specHasPrefix(cleaned, specClean(sandboxDir)+"/")
+}
+
+//@ func specResolved
+//@   pure
+func specResolved(sandboxDir, filePath string) string {
+	if specIsAbs(filePath) {
+		return specClean(filePath)
+	}
+	return specClean(specJoin2(sandboxDir, filePath))
+}
+
+// Axiom about the abstracted strings.HasPrefix: a prefix is never longer than the string.
+//@ func verifAxiomPrefixLen
+//@   trusted axiom of the abstraction of strings.HasPrefix: a prefix is never longer than the string
+//@   ensures implies(specHasPrefix(s, prefix), len(s) >= len(prefix))
+//@   assigns nothing
+func verifAxiomPrefixLen(s, prefix string) {}
+
+//@ func sshSanitizeFilePath
+//@   props C45
+//@   lemma verifAxiomPrefixLen(specResolved(sandboxDir, filePath), specClean(sandboxDir)+"/")
+//@   ensures[nosandbox] implies(sandboxDir == "", result1 == nil && result0 == filePath)
+//@   ensures[accept]    implies(sandboxDir != "", (result1 == nil) == specInsideSandbox(sandboxDir, specResolved(sandboxDir, filePath)))
+//@   ensures[value]     implies(sandboxDir != "" && result1 == nil, result0 == specResolved(sandboxDir, filePath))
+//@   ensures[refused]   implies(result1 != nil, result0 == "")
+//@   assigns nothing
+
+// The SSH debug commands that write files create exactly the path the
+// sanitizer returned for their first argument, and nothing when it refused.
+//@ func os.Create
+//@   trusted creates or truncates the named file
+//@   effect created
+//@   assigns nothing
+
+//@ func sshStartCpuProfile
+//@   props C45
+//@   ghost created int = 0
+//@   requires w != nil
+//@   callrequires os.Create len(a) >= 1 && ite(sandboxDir == "", arg0 == a[0], arg0 == specResolved(sandboxDir, a[0]) && specInsideSandbox(sandboxDir, arg0))
+//@   ensures[once] created <= 1
+
+//@ func sshGetHeapProfile
+//@   props C45
+//@   ghost created int = 0
+//@   requires w != nil
+//@   callrequires os.Create len(a) >= 1 && ite(sandboxDir == "", arg0 == a[0], arg0 == specResolved(sandboxDir, a[0]) && specInsideSandbox(sandboxDir, arg0))
+//@   ensures[once] created <= 1
+
+//@ func sshGetMutexProfile
+//@   props C45
+//@   ghost created int = 0
+//@   requires w != nil
+//@   callrequires os.Create len(a) >= 1 && ite(sandboxDir == "", arg0 == a[0], arg0 == specResolved(sandboxDir, a[0]) && specInsideSandbox(sandboxDir, arg0))
+//@   ensures[once] created <= 1
